@@ -1,7 +1,8 @@
 (* C12 — noLengthEncodingExhaustBuffer arrays: termination of decode, and the two ways the
    code that exists violates the property (finding F9). *)
 From Coq Require Import List ZArith Bool Lia.
-From TskVerif Require Import Base.Common C12.Model C12.BytesProofs C12.RoundTripProofs.
+From TskVerif Require Import Base.Common C12.Model C12.BytesProofs C12.Unfold C12.ValidProofs C12.ShapeProofs
+  C12.RoundTripProofs.
 Import ListNotations.
 Open Scope Z_scope.
 
@@ -341,40 +342,44 @@ Proof.
       apply IHr; auto.
 Qed.
 
-Lemma encode_min_width s : rt_ok s = true -> forall v bs,
-  encode s v = EOk bs -> (min_width s <= length bs)%nat.
+Lemma encode_min_width s : rt_ok s = true -> shape_ok s = true -> forall v bs,
+  valid s v = true -> encode s v = EOk bs -> (min_width s <= length bs)%nat.
 Proof.
-  intros Hok v bs He.
-  pose proof (struct_roundtrip_gen round32 widen32 s Hok 0%nat v bs [] He) as H.
+  intros Hok Hsh v bs Hv He.
+  pose proof (struct_roundtrip_gen round32 widen32 s Hok Hsh 0%nat v bs [] Hv He) as H.
   rewrite app_nil_r in H. apply decode_consumes in H. simpl in H. lia.
 Qed.
 
-Lemma exhaust_loop_roundtrip it fuel : rt_ok it = true -> (0 < min_width it)%nat ->
+Lemma exhaust_loop_roundtrip it fuel : rt_ok it = true -> shape_ok it = true -> (0 < min_width it)%nat ->
   forall l bs k acc,
+    forallb (valid it) l = true ->
     encode_list (encode it) l = EOk bs -> (length l < k)%nat ->
     decode_exhaust (decode fuel it) k bs acc = DOk (VArr (rev acc ++ map (norm it) l)) [].
 Proof.
-  intros Hok Hw l; induction l as [|x r IH]; intros bs k acc He Hk.
+  intros Hok Hsh Hw l; induction l as [|x r IH]; intros bs k acc Hv He Hk.
   - injection He as <-. destruct k; [lia|]. cbn [decode_exhaust].
     destruct (decode_empty it Hok fuel) as [-> | (v & _ & H0)]; [|lia].
     simpl. rewrite app_nil_r. reflexivity.
-  - cbn [encode_list] in He. fold (encode_list (encode it)) in He. unfold ebind in He.
+  - cbn [forallb] in Hv. apply andb_true_iff in Hv as [Hvx Hvr].
+    cbn [encode_list] in He. fold (encode_list (encode it)) in He. unfold ebind in He.
     destruct (encode it x) as [bx|] eqn:Ex; [|discriminate He].
     destruct (encode_list (encode it) r) as [br|] eqn:Er; [|discriminate He].
     injection He as <-. destruct k; [simpl in Hk; lia|]. cbn [decode_exhaust].
-    rewrite (struct_roundtrip_gen round32 widen32 it Hok fuel x bx br Ex).
-    rewrite (IH br k (norm it x :: acc) eq_refl) by (simpl in Hk; lia).
+    rewrite (struct_roundtrip_gen round32 widen32 it Hok Hsh fuel x bx br Hvx Ex).
+    rewrite (IH br k (norm it x :: acc) Hvr eq_refl) by (simpl in Hk; lia).
     cbn [rev map]. rewrite <- app_assoc. reflexivity.
 Qed.
 
-Lemma encode_list_length it l bs : rt_ok it = true -> (0 < min_width it)%nat ->
+Lemma encode_list_length it l bs : rt_ok it = true -> shape_ok it = true -> (0 < min_width it)%nat ->
+  forallb (valid it) l = true ->
   encode_list (encode it) l = EOk bs -> (length l <= length bs)%nat.
 Proof.
-  intros Hok Hw; revert bs; induction l as [|x r IH]; intros bs He; [simpl; lia|].
+  intros Hok Hsh Hw; revert bs; induction l as [|x r IH]; intros bs Hv He; [simpl; lia|].
+  cbn [forallb] in Hv. apply andb_true_iff in Hv as [Hvx Hvr].
   cbn [encode_list] in He. fold (encode_list (encode it)) in He. unfold ebind in He.
   destruct (encode it x) as [bx|] eqn:Ex; [|discriminate He].
   destruct (encode_list (encode it) r) as [br|] eqn:Er; [|discriminate He].
-  injection He as <-. pose proof (encode_min_width it Hok x bx Ex). specialize (IH br eq_refl).
+  injection He as <-. pose proof (encode_min_width it Hok Hsh x bx Hvx Ex). specialize (IH br Hvr eq_refl).
   rewrite app_length. simpl. lia.
 Qed.
 
@@ -399,10 +404,12 @@ Proof.
   - simpl. destruct (encode_fields E kv qs); reflexivity.
   - cbn [app encode_fields]. fold (encode_fields E kv). rewrite IH. unfold ebind.
     destruct (match lookup k kv with
-              | Some x => EOk x
-              | None => match p_default m with Some d => EOk d | None => EErr EKey end
+              | Some x => match E sub x with
+                          | EErr EKey => match p_default m with Some d => E sub d | None => EErr EKey end
+                          | r0 => r0 end
+              | None => match p_default m with Some d => E sub d | None => EErr EKey end
               end); auto.
-    destruct (E sub a); auto. destruct (encode_fields E kv r); auto.
+    destruct (encode_fields E kv r); auto.
     destruct (encode_fields E kv qs); auto. rewrite app_assoc. reflexivity.
 Qed.
 
@@ -414,48 +421,63 @@ Proof.
   destruct (match lookup k kv with Some x => Some x | None => p_default m end); reflexivity.
 Qed.
 
+Lemma valid_fields_app (V : schema -> value -> bool) kv ps qs :
+  valid_fields V kv (ps ++ qs) = valid_fields V kv ps && valid_fields V kv qs.
+Proof.
+  induction ps as [|[[k m] sub] r IH]; auto.
+  cbn [app valid_fields]. fold (valid_fields V kv). rewrite IH, andb_assoc. reflexivity.
+Qed.
+
 (* (a) for the documented use of noLengthEncodingExhaustBuffer: an object whose last encoded
    property is an exhaust array of items that are at least one byte wide *)
 Theorem exhaust_tail_roundtrip req ps k m it v bs fuel :
   forallb (fun p : prop => rt_ok (snd p)) ps = true ->
   rt_ok it = true -> (0 < min_width it)%nat ->
+  shape_ok (SObj req (ps ++ [(k, m, SArr AExhaust it)])) = true ->
+  valid (SObj req (ps ++ [(k, m, SArr AExhaust it)])) v = true ->
   encode (SObj req (ps ++ [(k, m, SArr AExhaust it)])) v = EOk bs ->
   (length bs < fuel)%nat ->
   decode fuel (SObj req (ps ++ [(k, m, SArr AExhaust it)])) bs =
     DOk (norm (SObj req (ps ++ [(k, m, SArr AExhaust it)])) v) [].
 Proof.
-  intros Hps Hit Hw He Hf.
+  intros Hps Hit Hw Hsh Hv He Hf.
   destruct v as [| | | | | |kv]; try discriminate He.
+  apply shape_ok_props in Hsh. apply Forall_app in Hsh as [Hsh1 Hsh2].
+  inversion Hsh2 as [|? ? [Hshl Hdl] _]; subst. cbn [fst snd] in Hshl, Hdl. cbn [shape_ok] in Hshl.
+  rewrite valid_obj_eq in Hv. apply andb_true_iff in Hv as [_ Hvf].
+  rewrite valid_fields_app in Hvf. apply andb_true_iff in Hvf as [Hvf1 Hvf2].
   rewrite encode_obj_eq, encode_fields_app in He. unfold ebind in He.
   destruct (encode_fields encode kv ps) as [a|] eqn:Ea; [|discriminate He].
   destruct (encode_fields encode kv [(k, m, SArr AExhaust it)]) as [b|] eqn:Eb; [|discriminate He].
   injection He as <-.
   rewrite decode_obj_eq, norm_obj_eq, decode_fields_app, norm_fields_app.
-  assert (HF : Forall (fun p : prop => rt_ok (snd p) = true -> forall fuel v bs rest,
-                         encode (snd p) v = EOk bs ->
+  assert (HF : Forall (fun p : prop => rt_ok (snd p) = true -> shape_ok (snd p) = true ->
+                         forall fuel v bs rest, valid (snd p) v = true -> encode (snd p) v = EOk bs ->
                          decode fuel (snd p) (bs ++ rest) = DOk (norm (snd p) v) rest) ps).
-  { apply Forall_forall. intros p _ H f' v' b' r'. apply struct_roundtrip_gen; auto. }
-  rewrite (fields_roundtrip round32 widen32 fuel kv ps HF Hps a b [] Ea).
+  { apply Forall_forall. intros p _ H H' f' v' b' r'. apply struct_roundtrip_gen; auto. }
+  rewrite (fields_roundtrip round32 widen32 fuel kv ps HF Hps Hsh1 Hvf1 a b [] Ea).
   cbn [rev app].
-  (* the last field *)
+  (* the last field: which array is encoded *)
+  cbn [valid_fields] in Hvf2. rewrite andb_true_r in Hvf2.
   cbn [encode_fields] in Eb. unfold ebind in Eb.
   cbn [norm_fields decode_fields].
+  assert (Hlast : forall x, valid (SArr AExhaust it) x = true -> encode (SArr AExhaust it) x = EOk b ->
+            match decode fuel (SArr AExhaust it) b with
+            | DOk v rest => DOk (VObj (rev ((k, v) :: rev (norm_fields norm kv ps)))) rest
+            | DShort => DShort | DErr e => DErr e | DFuel => DFuel
+            end = DOk (VObj (norm_fields norm kv ps ++ [(k, norm (SArr AExhaust it) x)])) []).
+  { intros x Hvx Ex. destruct x as [| | | | |l|]; try discriminate Ex.
+    cbn [valid] in Hvx. rewrite encode_arr_eq in Ex. rewrite decode_arr_eq.
+    rewrite (exhaust_loop_roundtrip it fuel Hit Hshl Hw l b fuel [] Hvx Ex).
+    - cbn [rev app]. rewrite rev_involutive. reflexivity.
+    - pose proof (encode_list_length it l b Hit Hshl Hw Hvx Ex). rewrite app_length in Hf. lia. }
   destruct (lookup k kv) as [x|] eqn:Lk.
-  - destruct (encode (SArr AExhaust it) x) as [bx|] eqn:Ex; [|discriminate Eb].
-    injection Eb as <-. rewrite app_nil_r.
-    destruct x as [| | | | |l|]; try discriminate Ex.
-    rewrite encode_arr_eq in Ex. rewrite decode_arr_eq.
-    rewrite (exhaust_loop_roundtrip it fuel Hit Hw l bx fuel [] Ex).
-    + cbn [rev app]. rewrite rev_involutive. reflexivity.
-    + pose proof (encode_list_length it l bx Hit Hw Ex). rewrite !app_length in Hf. simpl in Hf. lia.
+  - rewrite (normal_path round32 (SArr AExhaust it) x _ Hshl Hvf2) in Eb.
+    destruct (encode (SArr AExhaust it) x) as [bx|] eqn:Ex; [|discriminate Eb].
+    injection Eb as <-. rewrite app_nil_r in *. apply Hlast; auto.
   - destruct (p_default m) as [x|] eqn:Dm; [|discriminate Eb].
     destruct (encode (SArr AExhaust it) x) as [bx|] eqn:Ex; [|discriminate Eb].
-    injection Eb as <-. rewrite app_nil_r.
-    destruct x as [| | | | |l|]; try discriminate Ex.
-    rewrite encode_arr_eq in Ex. rewrite decode_arr_eq.
-    rewrite (exhaust_loop_roundtrip it fuel Hit Hw l bx fuel [] Ex).
-    + cbn [rev app]. rewrite rev_involutive. reflexivity.
-    + pose proof (encode_list_length it l bx Hit Hw Ex). rewrite !app_length in Hf. simpl in Hf. lia.
+    injection Eb as <-. rewrite app_nil_r in *. apply Hlast; auto.
 Qed.
 
 End Tail.
